@@ -37,3 +37,47 @@ Definition run_nv_write_big (a : args) : args :=
   | Some nl, Some vl => [[1]; [len (vi_write nl) + len (vi_write vl) + nl + vl]]
   | _, _ => [[0]]
   end.
+
+(* ---- C17 ---- *)
+From FV Require Import Codec.Header Codec.Bodies Codec.Vars.
+Definition run_hdr_decode (a : args) : args :=
+  match hdr_decode (arg a 0) with
+  | HOk t id cl pl => [[0; t; id; cl; pl]]
+  | HBadVersion v => [[1; v]]
+  | HBadType t => [[2; t]]
+  end.
+Definition run_hdr_encode (a : args) : args :=
+  [hdr_encode (argn a 0) (argn a 1) (argn a 2) (argn a 3)].
+Definition run_pad (a : args) : args := [[auto_padding (argn a 0)]].
+Definition run_begin_decode (a : args) : args :=
+  match begin_decode (arg a 0) with
+  | (role, None) => [[0; role]]
+  | (_, Some (role, flags)) => [[1; role; flags]; begin_encode role flags; begin_record role flags (argn a 1)]
+  end.
+Definition run_end_decode (a : args) : args :=
+  match end_decode (arg a 0) with
+  | None => [[0; nthN (arg a 0) 4]]
+  | Some (ast, ps) => [[1; ast; ps]; end_encode ast ps; end_record ast ps (argn a 1)]
+  end.
+Definition run_unk_decode (a : args) : args :=
+  let t := unk_decode (arg a 0) in [[t]; unk_encode t; unk_record t (argn a 1)].
+Definition run_exit_map (a : args) : args :=
+  match exit_to_end (argn a 0) (argn a 1) with None => [[0]] | Some (ast, ps) => [[1; ast; ps]] end.
+Definition run_parse_name (a : args) : args :=
+  match parse_name (arg a 0) with None => [[0]] | Some b => [[1; b]] end.
+(* gvr <vars> <maxc> <prefix>: returned length and the buffer after the call *)
+Definition run_gvr (a : args) : args :=
+  let w := write_response (argn a 0) (argn a 1) in [[len w]; arg a 2 ++ w].
+(* constants of the compiled crate vs the regenerated tables *)
+Definition run_consts (a : args) : args :=
+  [ RTYPE_VALUES; IS_MANAGEMENT; IS_INPUT_STREAM; IS_OUTPUT_STREAM; ROLE_VALUES; PSTATUS_VALUES; VERSION_VALUES;
+    flat_map (fun r => r :: len (role_input_streams r) :: role_input_streams r) ROLE_VALUES;
+    flat_map (fun r => flat_map (fun c =>
+                 if match c with Some x => memN x (role_input_streams r) | None => true end
+                 then match next_input_stream r c with Some x => [x] | None => [0] end
+                 else [888888])                      (* debug_assert in next_input_stream *)
+                                [None; Some RT_Stdin; Some RT_Data]) ROLE_VALUES;
+    ROLE_OUTPUT_STREAMS;
+    [HEADER_LEN; UnknownType_LEN; BeginRequest_LEN; EndRequest_LEN; RESPONSE_LEN; VARINT_MAX; FCGI_NULL_REQUEST_ID;
+     FLAG_KeepConn; EXIT_ABORT_CODE; EXIT_SUCCESS_CODE];
+    flat_map (fun e => snd e :: len (fst e) :: fst e) PROTOCOL_VARIABLES ].
